@@ -160,6 +160,11 @@ def _node_identity(P, u, scope, node_var):
         if isinstance(c, ast.Call) and isinstance(c.func, ast.Attribute) and c.func.attr == 'read' and isinstance(c.func.value, ast.Name) \
                 and c.func.value.id == node_var and c.args:
             ids.add(ast.unparse(c.args[0]))
+    # plain copies of an identity (`target_block = target_node.block`)
+    for _ in range(2):
+        for a in ast.walk(scope):
+            if isinstance(a, ast.Assign) and len(a.targets) == 1 and isinstance(a.targets[0], ast.Name) and ast.unparse(a.value) in ids:
+                ids.add(a.targets[0].id)
     return ids
 
 
